@@ -254,11 +254,16 @@ def check_snapshot(snap, cur_dir):
             names = [l.split(',')[0] for l in (ref_rows + cur_rows)][:2]
             obs = {}
             for nm in dict.fromkeys(names):
-                for api, f in (('scat', ScatteringParams.for_isotope), ('atom', Atom.for_isotope)):
-                    try:
-                        obs[f'{api}({nm!r})'] = str(f(nm))[:400]
-                    except Exception as ex:
-                        obs[f'{api}({nm!r})'] = f'raises {type(ex).__name__}: {ex}'
+                try:
+                    p = ScatteringParams.for_isotope(nm)
+                    obs[f'ScatteringParams.for_isotope({nm!r})'] = {f: show(getattr(p, f)) for f in FIELDS}
+                except Exception as ex:
+                    obs[f'ScatteringParams.for_isotope({nm!r})'] = f'raises {type(ex).__name__}: {ex}'
+                try:
+                    a = Atom.for_isotope(nm)
+                    obs[f'Atom.for_isotope({nm!r})'] = {'z': a.z, 'weight': show(getattr(a, '_atomic_weight', None)), 'mass': show(getattr(a, '_atomic_mass', None))}
+                except Exception as ex:
+                    obs[f'Atom.for_isotope({nm!r})'] = f'raises {type(ex).__name__}: {ex}'
             first = names[0] if names else ''
             fail(f'table-changed:{fn}:{first}',
                  f'{fn} differs from the pinned snapshot at line {i1 + 1}: snapshot {ref_rows[:3]} -> current {cur_rows[:3]}; '
